@@ -545,6 +545,26 @@ fn deflate_side(ctx: &mut Ctx, env: &OpEnv) {
                                             ok_b = false;
                                         }
                                     }
+                                    // a stream that was reset or ended again after only a few bytes cannot be judged from
+                                    // those bytes: let the reference finish it instead (the same program cut before the
+                                    // next reset / end, then the Finish tail) and look at what it then wrote
+                                    if ok_b {
+                                        for (i, _) in ops.iter().enumerate().filter(|(_, o)| matches!(o, DOp::Reset)) {
+                                            let j = ops[i + 1..].iter().position(|o| matches!(o, DOp::Reset | DOp::ResetKeep | DOp::End | DOp::Copy | DOp::CopyEndCopy)).map_or(ops.len(), |k| i + 1 + k);
+                                            if j == ops.len() {
+                                                continue;
+                                            }
+                                            if let Ok(rc) = run_dops_full::<Ng>(level, method, wb, ml, st, &ops[..j], env, false, false, 64, false, true, None, None) {
+                                                if rc.finished {
+                                                    if let Some(&from) = rc.reset_at.last() {
+                                                        if from <= rc.total_out.len() && !plain(&rc.total_out[from..], true).map_or(false, |o| is_piece(&o)) {
+                                                            ok_b = false;
+                                                        }
+                                                    }
+                                                }
+                                            }
+                                        }
+                                    }
                                     if !ok_b {
                                         c.count("not_compared_reference_emits_invalid_stream_after_reset", 1);
                                         return Ok(());
